@@ -44,8 +44,9 @@ Fixpoint strip_prefix (p s : str) : option str :=
   | _, _ => None
   end.
 
-(* s.replace(p, "") for non-empty p (left to right, non-overlapping); fuel = length of s *)
-Fixpoint remove_all_fuel (fuel : nat) (p s : str) : str :=
+(* PINNED: s.replace(p, "") for non-empty p (left to right, non-overlapping) -- refs.forwardref BEFORE /repo 31a6d65;
+   kept only for the witness that the old text function differs (Props/C09.v) *)
+Fixpoint remove_all_pinned_fuel (fuel : nat) (p s : str) : str :=
   match fuel with
   | 0 => s
   | S f =>
@@ -53,13 +54,45 @@ Fixpoint remove_all_fuel (fuel : nat) (p s : str) : str :=
       | EmptyString => EmptyString
       | String c r =>
           match strip_prefix p s with
-          | Some rest => remove_all_fuel f p rest
-          | None => String c (remove_all_fuel f p r)
+          | Some rest => remove_all_pinned_fuel f p rest
+          | None => String c (remove_all_pinned_fuel f p r)
           end
       end
   end.
-Definition remove_all (p s : str) : str :=
-  match p with EmptyString => s | _ => remove_all_fuel (S (String.length s)) p s end.
+Definition remove_all_pinned (p s : str) : str :=
+  match p with EmptyString => s | _ => remove_all_pinned_fuel (S (String.length s)) p s end.
+
+(* re.sub(rf"(?<![\w.]){re.escape(p)}", "", s) for a non-empty p (refs.forwardref since /repo 31a6d65, p = module + "."):
+   an occurrence of p is dropped only where it LEADS a dotted name -- the character before it in the ORIGINAL text is
+   neither a word character nor "."; occurrences are taken left to right, non-overlapping.  [ok]: the lookbehind
+   holds at the current position; fuel = length of s + 1.  (Bytes >= 128 count as word characters: the UTF-8
+   bytes of non-ASCII letters; generated names are ASCII.) *)
+Definition word_char (c : ascii) : bool :=
+  let n := nat_of_ascii c in
+  (Nat.leb 48 n && Nat.leb n 57) || (Nat.leb 65 n && Nat.leb n 90) || (Nat.leb 97 n && Nat.leb n 122)
+  || Nat.eqb n 95 || Nat.leb 128 n.
+Definition lead_stop (c : ascii) : bool := word_char c || Ascii.eqb c "."%char.
+Fixpoint last_lead_ok (p : str) : bool :=
+  match p with
+  | EmptyString => true
+  | String c EmptyString => negb (lead_stop c)
+  | String _ r => last_lead_ok r
+  end.
+Fixpoint remove_lead_fuel (fuel : nat) (ok : bool) (p s : str) : str :=
+  match fuel with
+  | O => s
+  | S f =>
+      match s with
+      | EmptyString => EmptyString
+      | String c r =>
+          match (if ok then strip_prefix p s else None) with
+          | Some rest => remove_lead_fuel f (last_lead_ok p) p rest
+          | None => String c (remove_lead_fuel f (negb (lead_stop c)) p r)
+          end
+      end
+  end.
+Definition remove_lead (p s : str) : str :=
+  match p with EmptyString => s | _ => remove_lead_fuel (S (String.length s)) true p s end.
 
 Fixpoint join (sep : str) (l : list str) : str :=
   match l with
@@ -195,7 +228,7 @@ Fixpoint unwrap (t : gty) : gty :=
   | GFinal x => unwrap x
   | GAlias _ _ x => unwrap x
   | GNewType _ _ x => unwrap x
-  | GAliasStr m _ body => GRef (remove_all (m +++ ".") body) (Some m)
+  | GAliasStr m _ body => GRef (remove_lead (m +++ ".") body) (Some m)
   | _ => t
   end.
 
@@ -250,7 +283,13 @@ Fixpoint is_stdlib (t : gty) : bool :=
 (* "Only subscripted generics or non-stdlib types can be cyclic." *)
 Definition can_be_cyclic (E : env) (u : gty) : bool := is_subscripted E u || negb (is_stdlib u).
 
-Definition is_literal (t : gty) : bool := match t with GLit _ => true | _ => false end.
+(* inspection.isliteral (asked on unwrapped parents): a Literal, or a ForwardRef whose text starts with "Literal" *)
+Definition is_literal (t : gty) : bool :=
+  match t with
+  | GLit _ => true
+  | GRef a _ => match strip_prefix "Literal" a with Some _ => true | None => false end
+  | _ => false
+  end.
 
 (* inspection.args *)
 Definition args_of (t : gty) : list gty :=
@@ -258,10 +297,10 @@ Definition args_of (t : gty) : list gty :=
 
 Definition last_is_ellipsis (a : list gty) : bool :=
   match rev a with GEllipsis :: _ => true | _ => false end.
-(* inspection.isfixedtupletype *)
+(* inspection.isfixedtupletype: tuple[()] is the fixed tuple without members (/repo 330087d) *)
 Definition is_fixed_tuple (t : gty) : bool :=
   match t with
-  | GGen g a => gen_is_tuple g && negb (last_is_ellipsis a) && negb (match a with [] => true | _ => false end)
+  | GGen g a => gen_is_tuple g && negb (last_is_ellipsis a)
   | _ => false
   end.
 
@@ -269,7 +308,8 @@ Fixpoint tuple_hints (i : nat) (a : list gty) : list (option str * gty) :=
   match a with [] => [] | x :: r => (Some ("arg" +++ show_nat i)%string, x) :: tuple_hints (S i) r end.
 
 (* inspection.get_type_hints(t, exhaustive=isstructuredtype(t)): the fields of a class; for a fixed
-   tuple the parameters arg0.. of tuple_signature; nothing for everything else (typing.get_type_hints
+   tuple the parameters arg0.. of tuple_signature (tuple[()]: the one parameter *args: Any, which is dropped like
+   every Any hint); nothing for everything else (typing.get_type_hints
    raises TypeError on aliases/unions, leaf classes only have unannotated -> Any parameters). *)
 Definition hints (E : env) (t : gty) : list (option str * gty) :=
   match t with
@@ -367,8 +407,8 @@ Definition ref_parts (E : env) (c : gty) : option (str * str) :=
 Definition mkref (E : env) (c u : gty) (var : option str) : option node :=
   match ref_parts E c with
   | Some (m, refname) =>
-      Some {| ntype := GRef (remove_all (m +++ ".") refname) (Some m);
-              nunw := GRef (remove_all (m +++ ".") (qualname E u)) (Some m);
+      Some {| ntype := GRef (remove_lead (m +++ ".") refname) (Some m);
+              nunw := GRef (remove_lead (m +++ ".") (qualname E u)) (Some m);
               nvar := var; ncyc := true; nfor := c |}
   | None => None
   end.
@@ -383,7 +423,13 @@ Definition revisit (c u : gty) (seen : list gty) : bool := mem c seen || mem u s
 
 (* inspection.isuniontype on an unwrapped annotation; inspection.should_unwrap (Final / ClassVar) *)
 Definition is_union (u : gty) : bool := match u with GUnion _ _ => true | _ => false end.
-Definition should_unwrap (c : gty) : bool := match c with GFinal _ => true | _ => false end.
+(* should_unwrap sees a qualifier behind NewTypes and aliases (isfinal resolves them) *)
+Fixpoint should_unwrap (c : gty) : bool :=
+  match c with
+  | GFinal _ => true
+  | GNewType _ _ x | GAlias _ _ x => should_unwrap x
+  | _ => false
+  end.
 Definition is_generic (E : env) (u : gty) : bool := is_subscripted E u || is_union u.
 
 (* A generic (subscripted or union) is looked up among the types on the tree path from the root (it is
@@ -480,7 +526,7 @@ Definition named (E : env) (c : gty) : option (str * str) :=
    no union; the module's own name followed by a dot must not occur inside the name (forwardref strips it) *)
 Definition denotes_guard (E : env) (c : gty) : bool :=
   match named E c with
-  | Some (m, n) => (is_class c || negb (has_char dot n)) && String.eqb (remove_all (m +++ ".") n) n
+  | Some (m, n) => (is_class c || negb (has_char dot n)) && String.eqb (remove_lead (m +++ ".") n) n
                    && negb (String.eqb m "")
   | None => false
   end.
